@@ -214,6 +214,72 @@ def _is_const(node, value):
     return isinstance(node, ast.Constant) and type(node.value) is type(value) and node.value == value
 
 
+def _terminate_force(node, where):
+    """'true' / 'false' if node is self.terminate() / self.terminate(force=<bool constant>) / self.terminate(<bool constant>), else None"""
+    c = _call(node)
+    if not c or c[0] != ["self", "terminate"]:
+        return None
+    args, kws = c[1].args, c[1].keywords
+    if not args and not kws:
+        return "false"
+    v = args[0] if (len(args) == 1 and not kws) else kws[0].value if (not args and len(kws) == 1 and kws[0].arg == "force") else None
+    if v is not None and isinstance(v, ast.Constant) and type(v.value) is bool:
+        return "true" if v.value else "false"
+    raise Unknown("%s: arguments of self.terminate: %s" % (where, ast.dump(c[1])[:160]))
+
+
+def _pty_terminate_check(fn):
+    """the hand-written model of terminate(force) (Lifecycle.terminate) says: SIGHUP, SIGCONT, SIGINT are sent whatever
+    force is, SIGKILL exactly under `if force`, True is returned only after `not self.isalive()`; fail closed on anything else"""
+    where = "PtyProcess.terminate"
+    a = fn.args
+    if [x.arg for x in a.args] != ["self", "force"] or a.vararg or a.kwarg or a.kwonlyargs or len(a.defaults) != 1 \
+            or not _is_const(a.defaults[0], False):
+        raise Unknown("%s: signature" % where)
+    sent = []
+
+    def walk(nodes, forced):
+        for n in nodes:
+            if isinstance(n, ast.If):
+                is_force = _attr_path(n.test) == ["force"]
+                walk(n.body, forced or is_force)
+                walk(n.orelse, forced)
+            elif isinstance(n, ast.Try):
+                walk(n.body, forced)
+                for h in n.handlers:
+                    walk(h.body, forced)
+                walk(n.orelse, forced)
+                walk(n.finalbody, forced)
+            elif isinstance(n, (ast.For, ast.While, ast.With, ast.FunctionDef)):
+                raise Unknown("%s: statement %s" % (where, type(n).__name__))
+            else:
+                for m in ast.walk(n):
+                    c = _call(m) if isinstance(m, ast.Call) else None
+                    if c and c[0] == ["self", "kill"]:
+                        p = _attr_path(c[1].args[0]) if len(c[1].args) == 1 and not c[1].keywords else None
+                        if not p or len(p) != 2 or p[0] != "signal":
+                            raise Unknown("%s: self.kill argument" % where)
+                        sent.append((p[1], forced))
+                    elif c and c[0][:1] == ["os"] and c[0][-1] in ("kill", "killpg"):
+                        raise Unknown("%s: %s" % (where, ".".join(c[0])))
+                if isinstance(n, ast.Return) and _is_const(n.value, True) and not getattr(n, "_guarded", False):
+                    raise Unknown("%s: return True not under `if not self.isalive()`" % where)
+
+    def guard(nodes):
+        # mark the `return True` statements that are the whole body of `if not self.isalive():`
+        for n in ast.walk(ast.Module(body=list(nodes), type_ignores=[])):
+            if isinstance(n, ast.If) and isinstance(n.test, ast.UnaryOp) and isinstance(n.test.op, ast.Not):
+                c = _call(n.test.operand)
+                if c and c[0] == ["self", "isalive"] and not c[1].args and not c[1].keywords:
+                    for b in n.body:
+                        if isinstance(b, ast.Return):
+                            b._guarded = True
+    guard(fn.body)
+    walk(fn.body, False)
+    if sent != [("SIGHUP", False), ("SIGCONT", False), ("SIGINT", False), ("SIGKILL", True)]:
+        raise Unknown("%s: signals sent %s" % (where, sent))
+
+
 def _pstmt(node, where):
     if isinstance(node, ast.Expr):
         if isinstance(node.value, ast.Constant) and isinstance(node.value.value, str):
@@ -241,13 +307,18 @@ def _pstmt(node, where):
             return "PNop"
         raise Unknown("%s: assignment %s" % (where, ast.dump(node)[:120]))
     if isinstance(node, ast.If) and not node.orelse:
-        # if not self.terminate(force=True): raise PtyProcessError(...)
+        # if not self.terminate(force=<bool>): raise PtyProcessError(...)   [no argument: force=False, the default]
+        # if <cond> and not self.terminate(...): raise ...   ==   if <cond>: if not self.terminate(...): raise ...
         t = node.test
-        if isinstance(t, ast.UnaryOp) and isinstance(t.op, ast.Not):
-            c = _call(t.operand)
-            if c and c[0] == ["self", "terminate"] and not c[1].args and len(c[1].keywords) == 1 and c[1].keywords[0].arg == "force" \
-                    and _is_const(c[1].keywords[0].value, True) and len(node.body) == 1 and isinstance(node.body[0], ast.Raise):
-                return "PTerminateOrRaise"
+        conds = []
+        if isinstance(t, ast.BoolOp) and isinstance(t.op, ast.And):
+            conds, t = t.values[:-1], t.values[-1]
+        force = _terminate_force(t.operand, where) if isinstance(t, ast.UnaryOp) and isinstance(t.op, ast.Not) else None
+        if force is not None and len(node.body) == 1 and isinstance(node.body[0], ast.Raise):
+            out = "PTerminateOrRaise %s" % force
+            for cnd in reversed(conds):
+                out = "PIf %s (%s)" % (_pcond(cnd, where), out)
+            return out
         return "PIf %s (%s)" % (_pcond(node.test, where), _pblock(node.body, where))
     raise Unknown("%s: statement %s" % (where, type(node).__name__))
 
@@ -271,6 +342,7 @@ def _pty_close(repo):
     # SystemTransport.close() closes its session
     def calls(fn):
         return [c[0] for c in (_call(n) for n in ast.walk(fn) if isinstance(n, ast.Call)) if c]
+    _pty_terminate_check(ms["terminate"])
     if ["self", "close"] not in calls(ms["__del__"]):
         raise Unknown("PtyProcess.__del__ does not call self.close()")
     tms, _ = _methods(os.path.join(repo, "scrapli/transport/plugins/system/transport.py"), "SystemTransport")
